@@ -27,6 +27,13 @@ func wgModels(ctx *core.Ctx, f func(i int, tm gen.Tagged) bool) {
 	extra = append(extra, gen.SameTargetModels()...)
 	extra = append(extra, gen.TuplesetListModels()...)
 	extra = append(extra, gen.SecondRouteModels()...)
+	// size sweeps: one dimension of the graph scaled (operands, relations, types on one tuple cycle, restrictions, chains of
+	// n hops, parent types, public types)
+	gsizes := []int{13, 33, 65}
+	if ctx.Thorough() {
+		gsizes = gen.SweepSizesSmall
+	}
+	extra = append(extra, gen.SweepModelsGraph(gsizes)...)
 	nSpecial := len(extra)
 	extra = append(extra, gen.ThreeRelModels(ctx.Thorough())...)
 	extra = append(extra, gen.NestedModels()...)
@@ -71,7 +78,7 @@ func wgModels(ctx *core.Ctx, f func(i int, tm gen.Tagged) bool) {
 
 const wgRule = "graph-model alphabet: types user, group (terminal), folder {a: [user], b: [group, user:*]}, doc {a, b, p} with a and b ranging over every leaf " +
 	"(direct assignment with 3 (quick) / 11 (thorough) restriction lists incl. wildcards, conditions, usersets of self/other/folder; computed self/other; TTU self/other over p) " +
-	"and every union / intersection / exclusion of two leaves, x 3 tupleset variants p in {[doc],[folder],[doc,folder]}; plus the TTU-defect family, the interlocking-cycles family (direct assignments mixing a terminal type, the relation's own userset and its neighbours' usersets in every order, with and without TTUs; two and three relations), the same-target family (one operator reaching a relation by a rewrite or TTU edge and by a direct userset edge, in both operand orders, with conditions), the tupleset-list family (tupleset restricted to every list of 1-3 entries with repetition over {doc, doc with k, folder, folder with k}; TTU alone, under union / intersection, and on a cycle), three-relation models rich in cycles and nested / three-operand rewrites " +
+	"and every union / intersection / exclusion of two leaves, x 3 tupleset variants p in {[doc],[folder],[doc,folder]}; plus the TTU-defect family, the interlocking-cycles family (direct assignments mixing a terminal type, the relation's own userset and its neighbours' usersets in every order, with and without TTUs; two and three relations), the same-target family (one operator reaching a relation by a rewrite or TTU edge and by a direct userset edge, in both operand orders, with conditions), the tupleset-list family (tupleset restricted to every list of 1-3 entries with repetition over {doc, doc with k, folder, folder with k, a type without the relation}; TTU alone, under union / intersection, and on a cycle), the second-route family (three relations, each a union of a direct assignment to user and the others' usersets with computed and TTU references to the others: 512 models), size sweeps (operands, relations, types on one tuple cycle, restrictions, userset / TTU / computed chains of n hops, parent types of a tupleset, public types on one relation; n = 13, 33, 65 quick / 11 sizes up to 100 thorough), three-relation models rich in cycles and nested / three-operand rewrites " +
 	"(quick: every 4th). Each model is built under every map-iteration schedule within the budgets: depth-first start orders fully permuted for graphs with <= 5 (quick) / <= 6 (thorough) relation and operator nodes " +
 	"(type and wildcard nodes pinned last there), every single root deviation (quick) / every pair (thorough) otherwise; every single inner-map deviation; thorough: one root x one inner deviation and two inner deviations. "
 
@@ -94,9 +101,54 @@ func pinTypes(rg *ref.WG) {
 
 // wgExplorePinned runs the budgets; the fully permuted one with pinning.
 func wgExploreAll(ctx *core.Ctx, m *ref.Model, rg *ref.WG, visit func(o *wgObs, choices []int, pinned bool) bool) bool {
+	return wgExploreAllTagged(ctx, "", m, rg, visit)
+}
+
+func wgExploreAllTagged(ctx *core.Ctx, tag string, m *ref.Model, rg *ref.WG, visit func(o *wgObs, choices []int, pinned bool) bool) bool {
 	pm := ref.ToProto(m)
 	nRoots := wgRoots(rg)
 	ok := true
+	if nRoots > 12 || len(rg.Order) > 30 {
+		// a large graph (the size sweeps): the default schedule and every FIRST start node of the weight assignment (the first
+		// depth-first search covers what it reaches; later starts and the inner maps follow the default order)
+		var o *wgObs
+		pts := rt.Run(nil, nil, func() { o = wgBuild(proto.Clone(pm).(*openfgav1.AuthorizationModel)) })
+		ctx.Trans(1)
+		if len(pts) > 0 {
+			ctx.Flag("map-sites-reached")
+		}
+		if !visit(o, nil, false) {
+			return false
+		}
+		idx := -1
+		for i, p := range pts {
+			if p.Site == wgRootSite {
+				idx = i
+				break
+			}
+		}
+		if idx < 0 {
+			return true
+		}
+		prefix := make([]int, idx)
+		for i := range prefix {
+			prefix[i] = pts[i].Choice
+		}
+		for alt := 1; alt < pts[idx].N; alt++ {
+			if ctx.Expired() {
+				ctx.Cap("wall-clock cap while enumerating the start nodes of a large graph")
+				return true
+			}
+			ch := append(append([]int{}, prefix...), alt)
+			rt.Run(ch, nil, func() { o = wgBuild(proto.Clone(pm).(*openfgav1.AuthorizationModel)) })
+			ctx.Trans(1)
+			if !visit(o, ch, false) {
+				return false
+			}
+		}
+		ctx.Flag("wg:large-graph-start-nodes")
+		return true
+	}
 	for bi, b := range wgBudgets(nRoots, ctx.Thorough()) {
 		pin := b["roots"] == -1
 		if pin {
@@ -118,7 +170,7 @@ func wgExploreAll(ctx *core.Ctx, m *ref.Model, rg *ref.WG, visit func(o *wgObs, 
 			return false
 		}
 		if !st.Complete {
-			ctx.Cap("a schedule exploration hit its execution cap (6000) or the wall-clock cap")
+			ctx.Cap(fmt.Sprintf("a schedule exploration hit its execution cap (6000) or the wall-clock cap (budget %v, %d relation and operator nodes)", b, nRoots))
 		}
 		ctx.Count(fmt.Sprintf("executions_budget_%d", bi), st.Executions)
 	}
@@ -379,7 +431,7 @@ func c06Run(ctx *core.Ctx) {
 		}
 		// permutations of the type-definition list
 		pm := ref.ToProto(tm.M)
-		for _, perm := range perms(len(tm.M.Types)) {
+		for _, perm := range typePerms(len(tm.M.Types)) {
 			ctx.Trans(1)
 			o := wgBuild(permuteTypes(pm, perm))
 			if d := wgDump(rg, o); d != first {
@@ -422,6 +474,33 @@ func c06Run(ctx *core.Ctx) {
 		}
 		return true
 	})
+}
+
+// typePerms: every permutation of up to 5 types; for longer lists the identity, the reversal, a rotation and a scrambled order.
+func typePerms(n int) [][]int {
+	if n <= 5 {
+		return perms(n)
+	}
+	id := identity(n)
+	rev, rot, scr := identity(n), identity(n), identity(n)
+	for i := range id {
+		rev[i] = n - 1 - i
+		rot[i] = (i + 1) % n
+		scr[i] = (i*7 + n/3) % n
+	}
+	out := [][]int{id, rev, rot}
+	seen := map[int]bool{}
+	okp := true
+	for _, v := range scr {
+		if seen[v] {
+			okp = false
+		}
+		seen[v] = true
+	}
+	if okp {
+		out = append(out, scr)
+	}
+	return out
 }
 
 // relWeights lists the weights of all relation nodes.
